@@ -142,6 +142,24 @@ def run(ctx):
                 nbad += 1
                 if nbad == 1:
                     out["broken"].append({"kind": "correspondence", "what": f"generated body {name} at Float differs from the real quantity", "detail": {"config": str(cfg), "impl": got[:3].tolist(), "model": g if isinstance(g, str) else g[:3].tolist()}})
+    # the same identities on one instance carried through updates of the normalisation, redshift and mass grid (every quantity read at every step)
+    try:
+        from hmf.mass_function.hmf import MassFunction as MF_
+        kwu = dict(transfer_model="EH", lnk_min=-12.0, lnk_max=12.0, dlnk=0.05, Mmin=10.0, Mmax=15.0, dlog10m=0.25, hmf_model="SMT")
+        mu = MF_(**kwu)
+        mu.dndm
+        for chg in ({"sigma_8": 0.9}, {"z": 1.0}, {"sigma_8": 0.7, "n": 0.93}, {"Mmin": 11.0}, {"sigma_8": 0.8159, "z": 0.0}):
+            mu.update(**chg)
+            kwu.update(chg)
+            sig_u = mu.growth_factor * mu.filter_model(mu.k, mu._power0, **mu.filter_params).sigma(mu.radii)
+            fr_u = MF_(**kwu)
+            if not (np.allclose(mu.sigma, sig_u, rtol=1e-10) and np.allclose(mu.dndm, fr_u.dndm, rtol=1e-10)
+                    and np.allclose(mu.dndm, mu.fsigma * mu.mean_density0 * np.abs(mu._dlnsdlnm) / mu.m ** 2, rtol=1e-12)):
+                viol("sigma-definition/update-sequence", f"after update({chg}) on an instance whose dndm had been read: sigma is {float(np.max(np.abs(mu.sigma / sig_u - 1))):.3g} away from growth_factor x rms of the normalised spectrum, "
+                     f"dndm {float(np.max(np.abs(mu.dndm / fr_u.dndm - 1))):.3g} away from a fresh object's", {"sequence": "MassFunction(SMT, EH); dndm; update(sigma_8=0.9); update(z=1); update(sigma_8=0.7, n=0.93); update(Mmin=11); update(sigma_8=0.8159, z=0)", "failing_step": str(chg)})
+                break
+    except Exception as e_:
+        out["broken"].append({"kind": "harness", "what": f"update-sequence oracle raised {type(e_).__name__}: {str(e_)[:150]}"})
     for key_, what_, script_ in realfuzz.cosmology_scenarios("MassFunction", "dndm"):
         viol(key_, what_, {"script": script_})
     out["coverage"] = {
